@@ -65,6 +65,27 @@ Value(name, e, k) ==
     [] name = "mean_reciprocal_rank" -> MRR(e, k)
     [] name = "fowlkes_mallows_index" -> Mul(Precision(e, k), Recall(e, k))       \* squared
 
+\* ------------------------------------------------------------ top-k classification over the batch
+\* (TopKConfusionMatrixAggFn): at cut-off k every class c has its own confusion counts over the examples -
+\* predicted = c among the first k predictions, true = c relevant; micro sums the counts over the classes,
+\* macro averages the per-class rates.
+TopSet(e, k) == {e.p[i] : i \in 1..Seen(e, k)}
+TPc(c, k) == Cardinality({i \in 1..Len(batch) : c \in batch[i].t /\ c \in TopSet(batch[i], k)})
+FPc(c, k) == Cardinality({i \in 1..Len(batch) : c \notin batch[i].t /\ c \in TopSet(batch[i], k)})
+FNc(c, k) == Cardinality({i \in 1..Len(batch) : c \in batch[i].t /\ c \notin TopSet(batch[i], k)})
+RECURSIVE SumOver(_, _, _)
+SumOver(F(_, _), S, k) == IF S = {} THEN 0 ELSE LET c == CHOOSE x \in S : TRUE IN F(c, k) + SumOver(F, S \ {c}, k)
+AddQ(a, b) == <<a[1] * b[2] + b[1] * a[2], a[2] * b[2]>>
+RECURSIVE MeanRate(_, _, _, _)
+MeanRate(Num(_, _), Den(_, _), S, k) ==      \* sum over the classes of Num / Den (x / 0 = 0); divided by |Vocab| by the caller
+  IF S = {} THEN <<0, 1>> ELSE LET c == CHOOSE x \in S : TRUE IN AddQ(Q(Num(c, k), Den(c, k)), MeanRate(Num, Den, S \ {c}, k))
+PredC(c, k) == TPc(c, k) + FPc(c, k)
+TrueC(c, k) == TPc(c, k) + FNc(c, k)
+MicroPrecision(k) == Q(SumOver(TPc, Vocab, k), SumOver(PredC, Vocab, k))
+MicroRecall(k)    == Q(SumOver(TPc, Vocab, k), SumOver(TrueC, Vocab, k))
+MacroPrecision(k) == LET m == MeanRate(TPc, PredC, Vocab, k) IN <<m[1], m[2] * Cardinality(Vocab)>>
+MacroRecall(k)    == LET m == MeanRate(TPc, TrueC, Vocab, k) IN <<m[1], m[2] * Cardinality(Vocab)>>
+
 \* ------------------------------------------------------------ laws
 Examples == {batch[i] : i \in 1..Len(batch)}
 InRange == \A e \in Examples : \A k \in 1..MaxK : \A nme \in {Names[i] : i \in 1..Len(Names)} :
@@ -83,5 +104,7 @@ Emit == batch # <<>> =>
   PrintT(<<"H", ToJson([examples |-> [i \in 1..Len(batch) |-> [t |-> batch[i].t, p |-> batch[i].p]],
                          values |-> [i \in 1..Len(batch) |-> [k \in 1..MaxK |->
                                       [j \in 1..Len(Names) |-> <<Names[j], Value(Names[j], batch[i], k)>>]]],
-                         hits |-> [i \in 1..Len(batch) |-> [k \in 1..MaxK |-> HitPos(batch[i], k)]]])>>)
+                         hits |-> [i \in 1..Len(batch) |-> [k \in 1..MaxK |-> HitPos(batch[i], k)]],
+                         topk |-> [k \in 1..MaxK |-> [micro_precision |-> MicroPrecision(k), micro_recall |-> MicroRecall(k),
+                                                       macro_precision |-> MacroPrecision(k), macro_recall |-> MacroRecall(k)]]])>>)
 =============================================================================
